@@ -35,17 +35,17 @@ CHECKS = {
     "C04": C("custom HIR rules: dispatch/pairing tables (K4), who-compares-qualified-names (K1), raw-slice taint (K8), doc_id provenance (K1/K2)",
              "every element constant is dispatched and every executable-content region is closed with the tag it was opened with; allowed-parent tables are "
              "sibling-consistent; names are compared through local_name() only; raw document slices pass an unescape before being stored; doc ids are drawn once "
-             "per declaration in the start handler.",
+             "per declaration in the start handler; a forward-referenced state receives the declaration's parameters; the XML parser is given an unmodified copy of the buffer that element text is cut out of.",
              "that the model mirrors the document for every document and rendering (an input/output equivalence over an infinite language).", "§5 C04"),
     "C05": C("WIRE: symbolic walk of every FsmWriter function and its FsmReader sibling into annotated operation sequences (K4), flag-table mapping, field coverage (K11), primitive tables and bit budgets (K4/K8)",
              "the 23 writer/reader pairs define the same wire grammar (operation kinds, model fields, loops, presence guards through the flag bits); the "
              "executable-content and Data variant dispatch tables agree; every field of the 16 persisted structs is written and read (or exempt with a reason); "
-             "integer type nibbles, thresholds and byte counts agree; every value fits the bits of its encoding; the reader narrows no integer.",
+             "integer type nibbles, thresholds and byte counts agree; every value fits the bits of its encoding; the reader narrows no integer (struct fields and Data variant payloads).",
              "trace equality after reload (argued from identical persisted model + C02 determinism); Data values (delegated to to_string/parse).", "§5 C05"),
     "C06": C("custom HIR/MIR rules: dominance of history recording over removal (K2), filter and key provenance (K3), who-may-write historyValue (K1)",
              "history values are recorded from the configuration before anything is removed; deep/shallow filters and keys; the history branch of "
              "addDescendantStatesToEnter and getEffectiveTargetStates (descendants and ancestors entered in two separate passes); order onentry, initial content, "
-             "default history content from the per-microstep table, the latter under exactly the has(s) test of that table.",
+             "default history content from the per-microstep table, the latter under exactly the has(s) test of that table; HashTable::put* replace an existing value.",
              "equality of restored and recorded configuration over histories.", "§5 C06"),
     "C07": C("custom HIR/MIR rules: guard shape of the final branch (K2/K3), reachability after running=false in the MIR CFG (K2), spec vocabulary coverage (K12)",
              "done.state.<parent> with evaluated donedata, done.state.<grandparent> iff parallel and every child region final, one enqueue each; running=false "
@@ -58,7 +58,7 @@ CHECKS = {
              "which branch runs for given data (values).", "§5 C08"),
     "C09": C("custom HIR/MIR rules: sibling agreement of the three In() implementations and two set_event tables (K4), read-only installation and deep read-only (K2/K3), dominance in interpret/enterStates (K2)",
              "In() tests the live configuration; the seven _event fields are fed from the matching Event fields; system variables are installed read-only and "
-             "every write through a value is guarded by is_readonly, including values reached through member/index access; initialisation order and late binding.",
+             "every write through a value is guarded by is_readonly, including values reached through member/index access; initialisation order and late binding; a state leaves the configuration in its own exit iteration, after its onexit content.",
              "what _event holds at every evaluation point.", "§5 C09"),
     "C10": C("custom HIR rules with partial evaluation: priority/associativity tables extracted from the scan and tie-break (K4), operator dispatch tables (K4), numeric tower (K4), get_copy field coverage (K11)",
              "operator priority classes; grouping direction per class; each Operator variant maps to its own operation_*; Integer x Integer stays Integer with "
@@ -85,7 +85,7 @@ CHECKS = {
              "relative timing of child events, completion and cancellation.", "§5 C14"),
     "C15": C("custom HIR rules with partial evaluation of the dispatch per representative target (K4), write-set of the event between construction and enqueue (K1/K3), constant agreement (K4), atomic-use query (K1)",
              "the dispatch table of the SCXML processor (one delivery per target form, none in a loop), origin/origintype stamped before dispatch, event fields flow "
-             "unchanged, reply-address constants agree between get_location and the dispatcher, id counters used only through fetch_add.",
+             "unchanged, the processor's send_to_session hands (session id, event) to the executor unconditionally, reply-address constants agree between get_location and the dispatcher, id counters used only through fetch_add, a session is registered by the starting thread before its thread is spawned.",
              "delivery across real threads (channel contract).", "§5 C15"),
     "C16": C("custom HIR/MIR rules: capture set and reachability of the timer closure (K3/K7), must-consume of timer::Guard in MIR (K2), who-may-touch delayed_send (K1), unit table by partial evaluation (K4)",
              "the delayed-send closure captures only evaluated owned values and reaches no evaluation API; every Guard is stored or ignored; delayed_send "
